@@ -679,6 +679,27 @@ func (fc *FnCtx) mergeStates(c string, a, b *State) *State {
 		}
 		out.locks[k] = tIte(c, la, lb)
 	}
+	if a.calls != nil || b.calls != nil {
+		m := map[string]string{}
+		for k, v := range a.calls {
+			m[k] = v
+		}
+		for k := range b.calls {
+			if _, ok := m[k]; !ok {
+				m[k] = "0"
+			}
+		}
+		for k, va := range m {
+			vb, ok := b.calls[k]
+			if !ok {
+				vb = "0"
+			}
+			if va != vb {
+				m[k] = tIte(c, va, vb)
+			}
+		}
+		out.calls = m
+	}
 	if a.nbLocks != nil || b.nbLocks != nil {
 		m := map[string]string{}
 		for k, v := range a.nbLocks {
